@@ -630,6 +630,19 @@ def m_split_at(I, st, callee, argv, depth, t, dty):
     yield st, ('tuple', (mk_slice(base, Int(0), mid), mk_slice(base, mid, L)))
 
 
+@model('core::slice::split_at_mut')
+def m_split_at_mut(I, st, callee, argv, depth, t, dty):
+    r = argv[0]
+    mid = freeze(st, argv[1])
+    L = I.len_of(st, argv[0])
+    st.ev('slice', L, mid, L, span(t))
+    if r is not None and r[0] == 'ref':
+        yield st, ('tuple', (('ref', r[1], r[2] + (('s', Int(0), mid),)), ('ref', r[1], r[2] + (('s', mid, L),))))
+    else:
+        base = bytes_of(st, argv[0])
+        yield st, ('tuple', (mk_slice(base, Int(0), mid), mk_slice(base, mid, L)))
+
+
 @model('generic_array::GenericArray::clone_from_slice', 'generic_array::GenericArray::from_slice')
 def m_cfs(I, st, callee, argv, depth, t, dty):
     c = bytes_of(st, argv[0])
@@ -678,6 +691,25 @@ def m_lz(I, st, callee, argv, depth, t, dty):
         yield st, Int(64 - v[1].bit_length())
     else:
         yield st, App('leading_zeros', v)
+
+
+@model('core::num::div_ceil')
+def m_div_ceil(I, st, callee, argv, depth, t, dty):
+    a, b = freeze(st, argv[0]), freeze(st, argv[1])
+    if a[0] == 'int' and b[0] == 'int' and b[1] != 0:
+        yield st, Int(-(-a[1] // b[1]))
+    else:
+        yield st, App('div_ceil', a, b)
+
+
+@model('core::cmp::min', 'core::cmp::Ord::min', 'core::cmp::max', 'core::cmp::Ord::max', 'std::cmp::min', 'std::cmp::max')
+def m_minmax(I, st, callee, argv, depth, t, dty):
+    a, b = freeze(st, argv[0]), freeze(st, argv[1])
+    f = callee['name']
+    if a[0] == 'int' and b[0] == 'int':
+        yield st, Int(min(a[1], b[1]) if f == 'min' else max(a[1], b[1]))
+    else:
+        yield st, App(f, a, b)
 
 
 @model('core::num::saturating_sub')
@@ -849,7 +881,8 @@ def m_bxa(I, st, callee, argv, depth, t, dty):
         return
     if lhs is not None and lhs[0] == 'ref':
         old = bytes_of(st, lhs)
-        I.write_res(st, ('cell', lhs[1], lhs[2]), mk_xor(old, freeze(st, rhs)))
+        rb = rhs[1] if (rhs is not None and rhs[0] == 'biter') else freeze(st, rhs)
+        I.write_res(st, ('cell', lhs[1], lhs[2]), mk_xor(old, rb))
     yield st, UNIT
 
 
